@@ -182,7 +182,9 @@ export class ProcGenWrapper {
 
   create(data: DataValue): { [field: string]: BindingMapGen[] } | undefined {
     const { shadowRoot, procGen } = this
-    const children = procGen(this, true, data, undefined)
+    // the children functions made here stay in use as dynamic slot update handlers until the first update:
+    // give them an empty update path tree (nothing changed), as sub-templates get in creation mode
+    const children = procGen(this, true, data, Object.create(null) as UpdatePathTreeNode)
     this.handleChildrenCreationAndInsert(children.C, shadowRoot, undefined, undefined)
     return children.B
   }
